@@ -54,14 +54,14 @@ def _val(q, unit):
     return v[()] if isinstance(v, np.ndarray) else v
 
 
-def h_to_pixel(kind, parity, sky_unit, centre, m):
+def h_to_pixel(kind, parity, sky_unit, centre, m, aunit='deg'):
     import regions as R
     _shims(m)
     w = AffineWCS(m, lon0=10.0, lat0=20.0, parity=parity)
     c = _sky(*centre)
     Q = lambda v: u.Quantity(v, getattr(u, sky_unit), dtype=object if m.sym else float)
     per_arcsec = {'arcsec': 1.0, 'arcmin': 60.0, 'deg': 3600.0}[sky_unit]
-    th = m.angle('theta', 'deg') if kind not in ('circle', 'annulus-circle') else None
+    th = m.angle('theta', aunit) if kind not in ('circle', 'annulus-circle') else None
     sizes = {}
     if kind == 'circle':
         sizes = {'radius': m.pos('r')}
@@ -151,6 +151,28 @@ def h_to_sky(kind, parity, m):
               And(chk.Eq(pc, rx * sc - ry * ss, 1e-9), chk.Eq(ps, ry * sc + rx * ss, 1e-9)))
 
 
+def h_wcs_mutation(m):
+    """the conversion depends on the WCS as it is now: after the same WCS object is changed in
+    place, a second conversion reflects the new scale and reference pixel"""
+    import regions as R
+    _shims(m)
+    w = AffineWCS(m)
+    c = _sky(10.0, 20.0)
+    r = m.pos('r')
+    Q = u.Quantity(r, u.arcsec, dtype=object if m.sym else float)
+    reg = R.CircleSkyRegion(c, Q)
+    _probe_lemma(m, w, c)
+    first = reg.to_pixel(w)
+    m.require('first conversion: radius = angular size / scale', _close_rel(first.radius, r / (3600 * w.s)))
+    w.s = m.pos('scale2_deg_per_pix')
+    w.x0 = m.real('crpix2_x')
+    _probe_lemma(m, w, c)
+    second = reg.to_pixel(w)
+    ex, ey = w.world_to_pixel(c)
+    m.require('after changing the WCS in place the centre follows the new reference pixel', And(chk.Eq(second.center.x, ex), chk.Eq(second.center.y, ey)))
+    m.require('after changing the WCS in place the radius follows the new scale', _close_rel(second.radius, r / (3600 * w.s)))
+
+
 def harnesses(tier):
     P = functools.partial
     q = tier == 'quick'
@@ -161,6 +183,10 @@ def harnesses(tier):
             for unit in (['arcsec'] if q else ['arcsec', 'arcmin', 'deg']):
                 for ci, c in enumerate(centres if kind in ('circle', 'annulus-circle') else centres[:1]):
                     hs.append((f'to_pixel/{kind}/parity={parity}/{unit}/centre{ci}', P(h_to_pixel, kind, parity, unit, c)))
+    for kind in ('ellipse', 'rectangle', 'annulus-ellipse'):
+        for au in ('rad', 'arcmin'):
+            hs.append((f'to_pixel/{kind}/sky-angle-unit={au}', P(h_to_pixel, kind, -1, 'arcsec', (10.0, 20.0), aunit=au)))
+    hs.append(('wcs-changed-in-place/circle', h_wcs_mutation))
     for kind in ('circle',):
         for parity in (-1, 1):
             hs.append((f'to_sky/{kind}/parity={parity}', P(h_to_sky, kind, parity)))
